@@ -94,17 +94,26 @@ def capture_probe(rng):
     name = rng.choice(["Vec3", "Node", "Handle"])
     lib = rng.choice([["lib"], ["core", "math"]])
     obs = rng.choice([["game", "entity"], ["game", "world", "actor"], ["app"]])
-    where = rng.choice(["ancestor", "sibling", "child", "toplevel"])
+    where = rng.choice(["ancestor", "sibling", "child", "toplevel", "namesake", "namesake"])
     if where == "ancestor" and len(obs) < 2:
         where = "toplevel"
+    # namesake: a module in another directory whose file has the same name as the observed module's; it looks the
+    # same short name up itself (and binds it to its own definition), before or after the observed module in path order
     other = {"ancestor": obs[:rng.randint(1, len(obs) - 1)] if len(obs) > 1 else ["zz"],
-             "sibling": obs[:-1] + ["zz_sibling"], "child": obs + ["zz_child"], "toplevel": ["zz_top"]}[where]
+             "sibling": obs[:-1] + ["zz_sibling"], "child": obs + ["zz_child"], "toplevel": ["zz_top"],
+             "namesake": [rng.choice(["aa_dir", "zz_dir"]), obs[-1]]}[where]
     files = {"/".join(lib) + ".pyxis": "pub type %s { pub a: [u8; %d] }\n" % (name, k1),
              "/".join(obs) + ".pyxis": "use %s;\npub type Holder {\n    pub v: %s,\n    pub p: *const %s,\n}\n" % ("::".join(lib), name, name)}
     if rng.random() < 0.5:
         files["/".join(other) + ".pyxis"] = "pub type ZzOther { pub a: u32 }\n"
     new = dict(files)
     new["/".join(other) + ".pyxis"] = files.get("/".join(other) + ".pyxis", "") + "pub type %s { pub zz: [u8; %d] }\n" % (name, k2)
+    if where == "namesake":
+        new["/".join(other) + ".pyxis"] += "pub type ZzUser { pub h: %s, pub q: *mut %s }\n#[address(0x4000)]\npub extern zz_g: %s;\n" % (name, name, name)
+        if rng.random() < 0.5:
+            # the observed module uses the name in an extern value too (resolved after all types)
+            files["/".join(obs) + ".pyxis"] += "#[address(0x5000)]\npub extern g_obs: %s;\n" % name
+            new["/".join(obs) + ".pyxis"] = files["/".join(obs) + ".pyxis"]
     return files, new, tuple(obs), "capture probe: %s starts to define %s (%s of the observed module, not in its scope)" % ("::".join(other), name, where)
 
 
@@ -181,7 +190,7 @@ def runner(pid, prop, tier, seed, scratch, replay=None):
         i = 0
         while len(pairs) < npairs and i < npairs * 6:
             ptr = 4 if i % 2 == 0 else 8
-            if rng.random() < 0.08:
+            if rng.random() < 0.12:
                 i += 1
                 files, newf, obs, what = capture_probe(rng)
                 cases.append(dict(id="c19-%d-a" % len(pairs), ptr=ptr, schedule=[], files=files))
